@@ -420,7 +420,6 @@ SEQUENCE_encode_oer(const asn_TYPE_descriptor_t *td,
                 }
             }
             ret = asn_put_few_bits(&preamble, has_extensions, 1);
-            assert(ret == 0);
             if(ret < 0) {
                 ASN__ENCODE_FAILED;
             }
@@ -450,7 +449,7 @@ SEQUENCE_encode_oer(const asn_TYPE_descriptor_t *td,
             }
         }
 
-        asn_put_aligned_flush(&preamble);
+        if(asn_put_aligned_flush(&preamble)) ASN__ENCODE_FAILED;
         computed_size += preamble.flushed_bytes;
     }   /* if(preamble_bits) */
 
@@ -529,7 +528,7 @@ SEQUENCE_encode_oer(const asn_TYPE_descriptor_t *td,
         }
         if(ret < 0) ASN__ENCODE_FAILED;
 
-        asn_put_aligned_flush(&extadds);
+        if(asn_put_aligned_flush(&extadds)) ASN__ENCODE_FAILED;
         computed_size += extadds.flushed_bytes;
 
         /* Now, encode extensions */
